@@ -109,6 +109,7 @@ func checkC05(c *Ctx) {
 	checkRequiredExact(c, "C05.R1.required-exact", gen)
 	checkDecoders(c, ev, gen)
 	checkReceiverAssignmentOrder(c, ev)
+	checkFreshResult(c, ev)
 	checkDiscriminatorAgreement(c, "C05.R4.discriminator", gen)
 }
 
@@ -672,5 +673,51 @@ func checkNumberFormats(c *Ctx, rule string, gen *packages.Package) {
 		got := tab["number"][f]
 		c.Check(got == want, rule, "generator.formatMapping › number."+f, c.posOf(gen, fm.Pos()), want,
 			fmt.Sprintf("`type: number, format: %s` is given the Go type %q (no row: float64), `type: integer, format: %s` gets %s: an integer above 2^53 written in a property declared the first way is rounded when the document is decoded and encoded again", f, got, f, want))
+	}
+}
+
+var freshDeclRx = `\bvar %s (?:⟦|\w|\*|\[)`
+
+// checkFreshResult: the value an UnmarshalJSON assigns to the whole receiver (`*m = rcv`) starts as
+// the zero value of the type: it is declared with `var rcv T` in the same function and by nothing
+// else. A result that starts as a copy of the receiver (`rcv := *m`) keeps what an earlier document
+// left in the parts this document does not mention — the additional-properties map is assigned only
+// when there are extra keys — so decoding twice into the same memory (encoding/json does, for the
+// elements of a slice it re-decodes) writes back properties the second document never had.
+func checkFreshResult(c *Ctx, ev *tmpl.Evaluator) {
+	rule := "C05.R3.fresh-result"
+	c.Rule(rule, "the value assigned to the whole receiver in UnmarshalJSON is declared as a zero value (`var x T`) in the same function and never initialised from the receiver", 2)
+	for _, tn := range []string{"hasDiscriminatedSerializer", "additionalPropertiesSerializer"} {
+		l := linearOf(c, ev, tn)
+		if l == nil {
+			c.Anchor(rule, "template "+tn, "not found")
+			continue
+		}
+		starts := regexp.MustCompile(`\nfunc \(`).FindAllStringIndex(l.Text, -1)
+		for i, w := range wholeRecvRx.FindAllStringSubmatchIndex(l.Text, -1) {
+			s := 0
+			for _, st := range starts {
+				if st[0] <= w[0] {
+					s = st[0]
+				}
+			}
+			name := l.Text[w[2]:w[3]]
+			body := l.Text[s:w[0]]
+			decl := regexp.MustCompile(fmt.Sprintf(freshDeclRx, name)).MatchString(body)
+			other := regexp.MustCompile(`\b` + name + `\s*:?=[^=\n][^\n]*`).FindString(body)
+			if regexp.MustCompile(`:?=\s*(?:⟦[^⟧]*⟧|\w)+\{\}\s*$`).MatchString(other) {
+				// an empty composite literal is the zero value spelled out
+				other, decl = "", true
+			}
+			key := fmt.Sprintf("template %s › *receiver = %s #%d starts from the zero value", tn, name, i+1)
+			switch {
+			case other != "":
+				c.Bad(rule, key, l.Tree.PosStr(l.PosAt(w[0])), "`"+strings.TrimSpace(other)+"…` gives "+name+" a value before the properties are copied into it: what an earlier document left in the receiver (the additional-properties map, which is assigned only when the document has extra keys) survives, and a second decode into the same value writes back properties the document does not have")
+			case !decl:
+				c.Bad(rule, key, l.Tree.PosStr(l.PosAt(w[0])), "no `var "+name+" T` declaration precedes the assignment in the same function")
+			default:
+				c.Ok(rule, key, l.Tree.PosStr(l.PosAt(w[0])), "var "+name+" T")
+			}
+		}
 	}
 }
